@@ -74,6 +74,29 @@ def C04(rep, prog, tier):
     part.check_all(rep, ex)
 
 
+def C07(rep, prog, tier):
+    rep.explanation = ("C07: the extended branch of every operator: EXT.inf-hard (infinity layer's material counterparts are hard "
+                       "constraints of the object handed to the recursion), EXT.vacuity (guards compared over satisfiability patterns), "
+                       "EXT.start-total (start index len(P)-2 guarded against the partition that is the infinity layer alone), EXT.pinf; "
+                       "siblings: the five implementations discharge one table")
+    ex = Explorer(prog, rep)
+    table = wrappers.dispatch(rep, ex)
+    cls = _class_of(table, ("p-entailment", None))
+    if cls:
+        pent.check(rep, ex, cls, strict=False, extended=True)
+    cls = _class_of(table, ("system-z", None))
+    if cls:
+        sysz.rec(rep, ex, cls)
+        sysz.entry_z(rep, ex, cls, strict=False, extended=True)
+    for key, name, lex in ((("system-w", False), "rc2", False), (("system-w", True), "z3", False),
+                           (("lex_inf", False), "rc2", True), (("lex_inf", True), "z3", True)):
+        cls = _class_of(table, key)
+        if cls:
+            be = mcsops.Backend(name, cls, lex=lex)
+            mcsops.w_entry(rep, ex, be, strict=False, extended=True, prefix="LEX" if lex else "W", n_objects=2 if lex else 1)
+    part.check_all(rep, ex)
+
+
 def C15(rep, prog, tier):
     rep.explanation = ("C15: CNF.roles/literals/constants/pool on the Tseitin step; MCS.violated/block/minimal/loop on the rc2 "
                        "enumeration (remove_supersets decided on three abstract sets with ⊆ uninterpreted); decides the shape of the "
@@ -100,4 +123,4 @@ def C06(rep, prog, tier):
     wrappers.shortcut_dominance(rep, ex)
 
 
-CHECKS = {"C01": C01, "C02": C02, "C03": C03, "C04": C04, "C06": C06, "C15": C15}
+CHECKS = {"C01": C01, "C02": C02, "C03": C03, "C04": C04, "C06": C06, "C07": C07, "C15": C15}
